@@ -182,9 +182,64 @@ def generate_logger(rng, tier, index):
             "texts": texts, "ops": [{"op": "load", "text": i} for i in hist]}
 
 
+ENV_SCHEMA = """<schema>
+  <key name="f" datatype="existing-file"/>
+  <key name="d" datatype="existing-directory"/>
+  <key name="p" datatype="existing-path"/>
+  <key name="dp" datatype="existing-dirpath"/>
+  <multikey name="fs" datatype="existing-file"/>
+  <key name="fd" datatype="existing-file" default="a.txt"/>
+</schema>
+"""
+ENV_FILES = ["a.txt", "sub/b.txt", "c.txt"]
+ENV_DIRS = ["sub", "other"]
+
+
+def generate_env(rng, tier, index):
+    """Stratum: datatypes whose answer depends on the ENVIRONMENT (does the
+    file / directory exist now?).  A history of loads against one schema
+    object while files and directories come and go and the current directory
+    changes; every load also against a fresh copy."""
+    texts = []
+    for _ in range(rng.randint(1, 3)):
+        ls = []
+        for key, pool in (("f", ENV_FILES), ("d", ENV_DIRS),
+                          ("p", ENV_FILES + ENV_DIRS),
+                          ("dp", ["sub/new.txt", "other/x", "nowhere/y"])):
+            if rng.random() < 0.5:
+                v = rng.choice(pool)
+                ls.append("%s %s" % (key, v if rng.random() < 0.6
+                                     else "$SCRATCH/" + v))
+        for _k in range(rng.randint(0, 2)):
+            ls.append("fs " + rng.choice(ENV_FILES))
+        texts.append("\n".join(ls) + "\n")
+    ops_ = []
+    for _ in range(rng.randint(3, 9)):
+        r = rng.random()
+        if r < 0.5:
+            ops_.append({"op": "load", "text": rng.randrange(len(texts))})
+        elif r < 0.62:
+            ops_.append({"op": "rm", "name": rng.choice(ENV_FILES)})
+        elif r < 0.74:
+            ops_.append({"op": "touch", "name": rng.choice(ENV_FILES)})
+        elif r < 0.82:
+            ops_.append({"op": "rmdir", "name": rng.choice(ENV_DIRS)})
+        elif r < 0.9:
+            ops_.append({"op": "mkdir", "name": rng.choice(ENV_DIRS)})
+        else:
+            ops_.append({"op": "chdir", "name": rng.choice([".", "sub",
+                                                            "other"])})
+    return {"prop": ID, "kind": "envdt", "schema_xml": ENV_SCHEMA,
+            "texts": texts, "ops": ops_,
+            "initial": [n for n in ENV_FILES + ENV_DIRS
+                        if rng.random() < 0.8]}
+
+
 def generate(rng, tier, index):
+    if rng.random() < 0.06:
+        return generate_env(rng, tier, index)
     plan = _generate(rng, tier, index)
-    if plan.get("kind") != "logger":
+    if plan.get("kind") not in ("logger", "envdt"):
         # the schema (and every fresh copy of it) is obtained through
         # ZConfig.loadSchema(url) instead of from its text
         plan["schema_by_url"] = rng.random() < 0.35
@@ -519,7 +574,115 @@ def execute_logger(plan):
     return out
 
 
+def execute_env(plan):
+    import os
+    import shutil
+    import tempfile
+    out = {"evaluations": 0, "digests": [], "fired": {}, "probes": {},
+           "violations": [], "waste": 0, "log": []}
+
+    def violation(clause, what, detail, step):
+        focused = dict(plan)
+        focused["ops"] = plan["ops"][:step + 1]
+        out["violations"].append({
+            "sig": "C13|%s|%s" % (clause, what),
+            "key": {"clause": clause, "what": what},
+            "detail": "step %d (environment datatypes): %s"
+                      % (step, detail.replace(scratch, "$SCRATCH")),
+            "plan": focused})
+
+    scratch = os.path.realpath(tempfile.mkdtemp(prefix="zcsim-c13-"))
+    old_cwd = os.getcwd()
+
+    def full(name):
+        return os.path.join(scratch, name)
+
+    def apply(op):
+        p_ = full(op["name"])
+        try:
+            if op["op"] == "touch":
+                os.makedirs(os.path.dirname(p_), exist_ok=True)
+                with open(p_, "w") as f:
+                    f.write("x")
+            elif op["op"] == "rm":
+                os.remove(p_)
+            elif op["op"] == "mkdir":
+                os.makedirs(p_, exist_ok=True)
+            elif op["op"] == "rmdir":
+                shutil.rmtree(p_)
+            elif op["op"] == "chdir":
+                os.chdir(p_)
+        except OSError:
+            return False
+        return True
+
+    def load(schema, text):
+        def run():
+            cfg, h = ZConfig.loadConfigFile(schema, io.StringIO(
+                text.replace("$SCRATCH", scratch)))
+            return {"ok": True, "nhandlers": len(h),
+                    "tree": canon.tree(cfg)}
+        return ops.guarded(run)
+    try:
+        with SimWorld() as w:
+            for n in plan["initial"]:
+                apply({"op": "mkdir" if n in ENV_DIRS else "touch",
+                       "name": n})
+            os.chdir(scratch)
+            w.begin_op("load-schema")
+            so = ops.schema_outcome(lambda: ops.load_schema_text(
+                plan["schema_xml"], "file:///sim/schema/env.xml"))
+            w.end_op("ok" if so["ok"] else so["cls"])
+            if not so["ok"]:
+                raise RuntimeError("env schema: " + ops.brief(so))
+            s_hist, digest0 = so["schema"], so["digest"]
+            nload = nchg = 0
+            for step, op in enumerate(plan["ops"]):
+                if op["op"] != "load":
+                    if apply(op):
+                        nchg += 1
+                        out["fired"]["env-" + op["op"]] = out["fired"].get(
+                            "env-" + op["op"], 0) + 1
+                    continue
+                text = plan["texts"][op["text"]]
+                w.begin_op("hist-load")
+                oh = load(s_hist, text)
+                w.end_op("ok" if oh["ok"] else oh["cls"])
+                w.begin_op("fresh-schema")
+                fs = ops.schema_outcome(lambda: ops.load_schema_text(
+                    plan["schema_xml"], "file:///sim/schema/env.xml"))
+                w.end_op("ok")
+                w.begin_op("fresh-load")
+                of = load(fs["schema"], text)
+                w.end_op("ok" if of["ok"] else of["cls"])
+                out["evaluations"] += 2
+                nload += 1
+                out["log"].append("step %d: hist %s | fresh %s" % (
+                    step, ops.brief(oh), ops.brief(of)))
+                a, b = dict(oh), dict(of)
+                for o_ in (a, b):
+                    o_["msg"] = (o_.get("msg") or "").replace(scratch, "")
+                if not _same(a, b):
+                    violation("history-vs-fresh", "environment-datatypes",
+                              "reused schema: %s ; fresh schema: %s"
+                              % (ops.brief(oh), ops.brief(of)), step)
+                if canon.digest_diff(digest0, canon.schema_digest(s_hist)):
+                    violation("schema-changed", "env-description",
+                              "description of the schema changed", step)
+            out["probes"]["environment-datatype-history"] = 1
+            if nload >= 2 and nchg:
+                out["digests"].append(hashlib.sha256(json.dumps(
+                    [plan["texts"], plan["ops"], plan["initial"]]).encode()
+                ).hexdigest()[:16])
+    finally:
+        os.chdir(old_cwd)
+        shutil.rmtree(scratch, ignore_errors=True)
+    return out
+
+
 def execute(plan):
+    if plan.get("kind") == "envdt":
+        return execute_env(plan)
     if plan.get("kind") == "logger":
         return execute_logger(plan)
     out = {"evaluations": 0, "digests": [], "fired": {}, "probes": {},
@@ -715,6 +878,14 @@ def shrink_logger(plan):
 
 
 def shrink(plan):
+    if plan.get("kind") == "envdt":
+        ops_ = plan["ops"]
+        for i in range(len(ops_) - 1, -1, -1):
+            if len(ops_) > 1:
+                new = dict(plan)
+                new["ops"] = ops_[:i] + ops_[i + 1:]
+                yield new
+        return
     if plan.get("kind") == "logger":
         yield from shrink_logger(plan)
         return
@@ -767,6 +938,10 @@ def shrink(plan):
 
 
 def sample(plan):
+    if plan.get("kind") == "envdt":
+        return {"kind": "environment-datatype history",
+                "texts": [t.splitlines() for t in plan["texts"]],
+                "initial": plan["initial"], "ops": plan["ops"]}
     if plan.get("kind") == "logger":
         return {"kind": "logger-component history",
                 "texts": [t.splitlines() for t in plan["texts"]],
